@@ -378,11 +378,11 @@ theorem ctHead_str (e : Elem) : ctHead e.str = ctHead e.value := by
 /-- **gzip after encode**: with both tools on a buffered text body, when the gzip tool compresses,
     the member unpacks to bytes that decode, under the announced charset, to the original text; the
     response is labelled gzip, and the eligible media type is the one the handler set. -/
-theorem C17_gzip_wraps_encoded (k : Codec) (hk : ChunkRT k) (z : Z) (hz : z.Lawful) (ei : EncodeIn)
+theorem C17_gzip_wraps_encoded (k : Codec) (hk : IncRT k) (z : Z) (hz : z.Lawful) (ei : EncodeIn)
     (ae : Option Str) (cached : Bool) (mimes : List Str) (level mtime : Nat)
     (h : RespHeaders) (chunks : List Str) (o : BothOut)
     (hr : encodeThenGzip k z ei ae cached mimes level mtime h chunks = some o)
-    (hd : o.decision = .compress) (hc : ConcatOk k o.charset) :
+    (hd : o.decision = .compress) :
     (∃ data, gunzip z o.body.flatten = some data ∧ k.dec o.charset data = some chunks.flatten) ∧
     o.headers.contentEncoding = some sGzip ∧
     (∃ ct rest, plainElements ei.contentType = ct :: rest ∧ Eligible (ctHead ct.value) mimes) := by
@@ -393,11 +393,11 @@ theorem C17_gzip_wraps_encoded (k : Codec) (hk : ChunkRT k) (z : Z) (hz : z.Lawf
     · rename_i bs henc
       simp only [Option.some.injEq] at hr
       subst hr
-      simp only at hd hc ⊢
+      simp only at hd ⊢
       have hdec : gzipDecision ⟨bs.isEmpty, cached, ae, nct, mimes⟩ = .compress := by
         simpa [gzipTool] using hd
       obtain ⟨g1, g2, _, _⟩ := C17_gzip_labels z hz ⟨bs.isEmpty, cached, ae, nct, mimes⟩ level mtime h bs hdec
-      refine ⟨⟨bs.flatten, g1, C17_charset_sound_partial k hk c hc chunks bs henc⟩, g2, ?_⟩
+      refine ⟨⟨bs.flatten, g1, C17_charset_sound k hk c chunks bs henc⟩, g2, ?_⟩
       obtain ⟨ct, rest, hp, _, hn, _⟩ := C17_charset_announced _ ei c nct hfound
       refine ⟨ct, rest, hp, ?_⟩
       have he := C17_compress_only_eligible _ hdec
